@@ -50,6 +50,10 @@ Types ==
     Sh("rank_array", "int[,]", ""), Sh("dynamic_array", "int[]", ""), Sh("map", "string->int", ""),
     Sh("record", "Rec1", ""), Sh("enum", "En1", ""), Sh("alias", "Al1", ""), Sh("generic_alias", "G1<int>", ""), Sh("generic_record", "G2<Rec1>", ""),
     Nd("union", "[int, string]", ""), Nd("nullable_union", "[null, int, string]", ""), Nd("tagged_union", "!union {a: int, b: string}", ""),
+    \* unions and optionals behind an alias (as a union case they are "a union inside a union" only by name, which is allowed)
+    ShD("union_alias", "UAl1", "UAl1: [int, string]" \o NL, ""), ShD("tagged_union_alias", "UAl2", "UAl2: [float, double]" \o NL, ""),
+    ShD("nullable_union_alias", "UAl3", "UAl3: [null, int, string]" \o NL, ""), ShD("optional_alias", "OAl1", "OAl1: int?" \o NL, ""),
+    ShD("generic_union_alias", "UAl4<int, string>", "UAl4<A, B>: [A, B]" \o NL, ""),
     Nd("vector_node", "!vector {items: int, length: 2}", ""), Nd("array_node", "!array {items: int, dimensions: {x: 2, y: 3}}", ""),
     \* ---- one per rule
     ShD("alias_cycle", "Cyc1", "Cyc1: Cyc2" \o NL \o "Cyc2: Cyc1" \o NL, "cyclic"),
